@@ -422,16 +422,38 @@ func (e *Engine) call(fn *ssa.Function, s *St, in *ssa.Call, ip int) (next []suc
 		d := hash.Sha256([]byte(in0)).BytesBE()
 		return set(e.uf("sha256", args[0].(BytesV).b, 32, d))
 	case ipfx + "native/std.MemorySearch", ipfx + "native/std.MemorySearchLastIndex":
-		a, ok1 := isConstBytes(args[0].(BytesV))
-		b, ok2 := isConstBytes(args[1].(BytesV))
-		if !ok1 || !ok2 {
-			panic("spike: MemorySearch on symbolic bytes")
+		ab, bb := args[0].(BytesV), args[1].(BytesV)
+		a, ok1 := isConstBytes(ab)
+		b, ok2 := isConstBytes(bb)
+		lastIdx := strings.HasSuffix(name, "LastIndex")
+		if ok1 && ok2 {
+			if lastIdx {
+				start := int(args[2].(IntV).t.n.Int64())
+				return set(IntV{I(int64(strings.LastIndex(a[:start], b)))})
+			}
+			return set(IntV{I(int64(strings.Index(a, b)))})
 		}
-		if strings.HasSuffix(name, "LastIndex") {
-			start := int(args[2].(IntV).t.n.Int64())
-			return set(IntV{I(int64(strings.LastIndex(a[:start], b)))})
+		// symbolic contents, concrete lengths: an ite chain over the candidate positions
+		hay := ab.b
+		if lastIdx {
+			st := args[2].(IntV).t
+			if !st.isC() {
+				panic("MemorySearchLastIndex with a symbolic start")
+			}
+			hay = hay[:st.n.Int64()]
 		}
-		return set(IntV{I(int64(strings.Index(a, b)))})
+		res := I(-1)
+		n := len(bb.b)
+		if lastIdx { // the last match wins: build from the first position upwards
+			for pos := 0; pos+n <= len(hay); pos++ {
+				res = Ite(bytesEq(hay[pos:pos+n], bb.b), I(int64(pos)), res)
+			}
+		} else {
+			for pos := len(hay) - n; pos >= 0; pos-- {
+				res = Ite(bytesEq(hay[pos:pos+n], bb.b), I(int64(pos)), res)
+			}
+		}
+		return set(IntV{res})
 	case ipfx + "native/std.Itoa", ipfx + "native/std.Itoa10":
 		alts := e.itoa(s, args[0].(IntV).t)
 		for i, a := range alts {
